@@ -31,7 +31,7 @@ STUB_COMPONENTS = ["leaf processors (svsim.lib)", "RecordingExecutor", "SimClock
 ASSUMPTIONS = ["volatile fields are exactly: run_id (header and identity.run_id), timestamp, timing.started_at, "
                "timing.finished_at, timing.wall_ms, timing.cpu_ms, seq - nothing else is removed before comparing"]
 REQUIRED_PROBES = ["reused_pipeline_second_traced_run", "reused_pipeline_with_sweep", "failing_subject", "history_contains_other_config",
-                   "result_object_fed_back", "other_process_other_hashseed", "cli_launch_repeated_with_same_launch_id", "concurrent_first_traced_runs_in_fresh_interpreter", "orchestrator_shared_with_sibling_config", "stochastic_processor_with_seeded_global_prng"]
+                   "result_object_fed_back", "other_process_other_hashseed", "cli_launch_repeated_with_same_launch_id", "concurrent_first_traced_runs_in_fresh_interpreter", "orchestrator_shared_with_sibling_config", "stochastic_processor_with_seeded_global_prng", "equal_but_differently_typed_context_values_in_history"]
 CONFIG = {
     "quick": {"runs": 2000, "budget_s": 240, "timeout_s": 120},
     "thorough": {"runs": 60000, "budget_s": 1500, "timeout_s": 120},
@@ -61,6 +61,14 @@ def generate(rng: random.Random, tier: str, seed: int) -> dict:
         subject = dict(subject, nodes=subject["nodes"] + [{"processor": "SvJitter", "parameters": {"scale": 2.0}}])
         py_seed = rng.getrandbits(32)
     b = gen.gen_pipeline(rng)
+    equal_values = fail is None and py_seed is None and rng.random() < 0.06
+    if equal_values:
+        # A creates the float 1.0 in the context; the bystander B creates the boolean True (equal, differently typed) - and B
+        # runs before A's first traced run; A is also traced in a fresh interpreter that never saw B
+        subject = {"nodes": [{"processor": "SvSource", "parameters": {"value": 1.0}}, {"processor": "SvProbe", "context_key": "unit"},
+                             {"processor": "SvAddDefault"}], "context": {}, "init_data": None, "faults": []}
+        a = dict(subject, truth=None)
+        b = {"nodes": [{"processor": "SvSource", "parameters": {"value": 3.5}}, {"processor": "SvCtxWriterFlag"}], "context": {}, "init_data": None}
     details = [rng.choice(harness.DETAILS) for _ in range(rng.randint(1, 2))]
     ops = [["untraced", "A", None]]
     for d in details:
@@ -68,7 +76,7 @@ def generate(rng: random.Random, tier: str, seed: int) -> dict:
         ops.append(["fresh", "A", d])
         ops.append(["reuse", "A", d])
         ops.append(["reuse", "A", d])
-    if subject.get("init_data") is not None and fail is None and a["truth"][-1]["out"] == "float":
+    if subject.get("init_data") is not None and fail is None and a.get("truth") and a["truth"][-1]["out"] == "float":
         # feed a previous result object back in after resetting its value in place through the .data setter
         for d in details:
             ops.append(["reuse_feedback", "A", d])
@@ -83,14 +91,19 @@ def generate(rng: random.Random, tier: str, seed: int) -> dict:
         d0 = details[0]
         ops += [["shared_variant", "A", d0], ["shared", "A", d0], ["shared_variant", "A", d0], ["shared", "A", d0]]
     rng.shuffle(ops)
+    if equal_values:
+        ops = [["fresh", "B", details[0]]] + ops
     hs = rng.choice([1, 2, 3, 5, 7]) if (rng.random() < 0.12 or (fail and fail[0].startswith("unresolvable"))) else None
     cli_pair = rng.choice([None, None, None, ["--run-space-launch-id", "L-1"], ["--run-space-idempotency-key", "K-1"],
-                           ["--run-space-launch-id", "L-1", "--run-space-attempt", "2"]])
+                           ["--run-space-launch-id", "L-1", "--run-space-attempt", "2"],
+                           ["--run-space-launch-id", "L-1", "--run-space-attempt", "0"]])      # an attempt number the CLI rejects
     from .. import threads as _th
     # 8 %: the FIRST traced runs of a fresh interpreter happen concurrently on two caller threads (config-borne failures only)
     concurrent = {"sched_seed": rng.getrandbits(48), "strategy": rng.choice(_th.STRATEGIES)} \
         if (rng.random() < 0.08 and not subject.get("faults") and py_seed is None) else None    # (a shared global PRNG drawn from by two threads is not reproducible by definition)
-    return {"py_seed": py_seed, "variant": variant, "concurrent": concurrent, "A": subject, "B": dict(b, faults=[]), "ops": ops, "fail": fail, "A_truth": a.get("truth"), "remote_exec": rng.random() < 0.25,
+    if equal_values:
+        hs = hs or rng.choice([1, 2, 3])
+    return {"equal_values": equal_values, "py_seed": py_seed, "variant": variant, "concurrent": concurrent, "A": subject, "B": dict(b, faults=[]), "ops": ops, "fail": fail, "A_truth": a.get("truth"), "remote_exec": rng.random() < 0.25,
             "hashseed": hs, "cli_pair": cli_pair}
 
 
@@ -332,6 +345,8 @@ def execute(sc: dict, seed: int) -> dict:
             else:
                 recs, _ = harness.parse_lines(rr["emissions"])
                 a_traced.setdefault(detail, []).append((i, how, ok, normalize(recs)))
+        if sc.get("equal_values"):
+            stats["probe.equal_but_differently_typed_context_values_in_history"] = 1
         if sc.get("py_seed") is not None:
             stats["probe.stochastic_processor_with_seeded_global_prng"] = 1
         if sc.get("fail"):
@@ -375,6 +390,15 @@ def execute(sc: dict, seed: int) -> dict:
                 recs, _ = harness.parse_lines(w.emissions[first:])
                 pair.append((r["code"], normalize(recs)))
             stats["probe.cli_launch_repeated_with_same_launch_id"] = 1
+            # (a) again, through the CLI: the same launch without any trace configuration ends the same way
+            harness.write_cli_config(sc["A"], "pair_untraced.yaml", trace=None, run_space=rs)
+            if sc.get("py_seed") is not None:
+                import random as _pyrandom
+                _pyrandom.seed(sc["py_seed"])
+            ru = harness.run_cli(["run", "pair_untraced.yaml"] + argv[2:])
+            if ru["code"] != pair[0][0]:
+                viols.append(oracles.V("outcome", "cli_exit_code_traced_ne_untraced", f"`semantiva run {' '.join(sc['cli_pair'])}`: exit {pair[0][0]} with a trace "
+                                       f"driver configured, exit {ru['code']} without (stderr {ru['stderr'][:160]!r})"))
             d = _first_diff(pair[0][1], pair[1][1]) or ("" if pair[0][0] == pair[1][0] else f"exit codes {pair[0][0]} vs {pair[1][0]}")
             if d:
                 viols.append(oracles.V("reproducible", f"cli_launch_trace_differs:{_field_of(d)}", f"`semantiva run {' '.join(sc['cli_pair'])}` twice in one process: {d}"))
